@@ -131,6 +131,16 @@ def test(inp):
         must_raise(lambda: e.make_poly_collection('marker', array=numpy.zeros(len(present))), 'data_array and array together', TypeError)
         d3 = ds.assign(stack=(['extra'] + fdims, numpy.stack([lin, lin])))
         must_raise(lambda: d3.ems.make_poly_collection('stack'), 'leftover dimension', ValueError)
+        # a variable of another grid of the dataset (edges, nodes) has no value per cell: it is refused, never painted onto the cell polygons
+        for kind in ems.grid_kinds:
+            if kind == ems.default_grid_kind:
+                continue
+            kdims = list(ems.grid_dimensions[kind])
+            if any(d not in ds.sizes for d in kdims):
+                continue
+            other = ds.assign(on_other_grid=(kdims, numpy.arange(int(numpy.prod([ds.sizes[d] for d in kdims])), dtype=float).reshape([ds.sizes[d] for d in kdims])))
+            for arg in ('on_other_grid', other['on_other_grid']):
+                must_raise(lambda: other.ems.make_poly_collection(arg), f'a variable on the {getattr(kind, "value", kind)} grid given to make_poly_collection', (ValueError, IndexError))
         # quiver
         fig = plt.figure()
         ax = fig.add_subplot()
